@@ -5,6 +5,7 @@ import (
 	"fmt"
 	"math"
 	"math/cmplx"
+	"runtime"
 	"sync/atomic"
 
 	r "github.com/Trisia/randomness"
@@ -149,7 +150,22 @@ func Run(ctx *common.Ctx) int {
 			}
 		})
 	}
-	cmp.Count("S2: lengths around powers of two x {constant, periodic patterns, square tones of period 2..32, fillers} with <=1 bit flip", c.evals-s1)
+	// the same function under other GOMAXPROCS settings (work split over workers must not depend on their number)
+	s2 := c.evals
+	prev := runtime.GOMAXPROCS(0)
+	for _, gmp := range []int{1, 2, 3, 5, 6, 7, 12} {
+		runtime.GOMAXPROCS(gmp)
+		for _, n := range []int{4097, 32769, 65537, 100000, 131072} {
+			bits := enum.Filler(n, uint64(ctx.Seed)+uint64(n))
+			c.one(bits, func() interface{} {
+				return map[string]interface{}{"n": n, "filler_seed": ctx.Seed + int64(n), "GOMAXPROCS": gmp}
+			})
+		}
+	}
+	runtime.GOMAXPROCS(prev)
+	cmp.Count("GOMAXPROCS in {1,2,3,5,6,7,12} x fillers of 4097..131072 bits", c.evals-s2)
+	c.evals = s2 + (c.evals - s2)
+	cmp.Count("S2: lengths around powers of two x {constant, periodic patterns, square tones of period 2..32, fillers} with <=1 bit flip", s2-s1)
 	cmp.Sample(map[string]interface{}{"family": "S2", "lengths": lens, "example": "n=1025 (padded to 2048), square tone of period 6 with bit 512 flipped"})
 	_ = math.Pi
 	cov := cmp.Coverage("S1: every bit string of each length against the naive DFT; S2: every listed content at every listed length (just below / at / just above powers of two); the implementation's (P,Q) must equal the formula's value for some N1 in the interval obtained by moving the threshold by a relative 1e-9 either way; "+
